@@ -145,6 +145,7 @@ type auditSink struct {
 	lastHash [32]byte
 	buf      []byte
 	dead     bool
+	hook     func() // if set: called once, outside the sink's own lock, when the next record arrives
 }
 
 func fileHash(path string) [32]byte {
@@ -165,6 +166,12 @@ func (s *auditSink) noteSave() {
 
 func (s *auditSink) Write(p []byte) (int, error) {
 	s.mu.Lock()
+	if h := s.hook; h != nil && !s.quiet {
+		s.hook = nil
+		s.mu.Unlock()
+		h()
+		s.mu.Lock()
+	}
 	defer s.mu.Unlock()
 	if s.quiet {
 		return len(p), nil
